@@ -466,8 +466,8 @@ def in_domain(ref: Any) -> bool:
         return True
     key = json.dumps(ref, sort_keys=False)
     if key not in _wf:
-        _lib, rs = get(ref)
-        _wf[key] = well_founded(rs)
         if len(_wf) > 500:
             _wf.clear()
+        _lib, rs = get(ref)
+        _wf[key] = well_founded(rs)
     return _wf[key]
